@@ -100,8 +100,9 @@ def actual_errors(result):
     return out
 
 
-def check_response(props, config, exp, result):
-    """Ordered data and error multiset against the model."""
+def check_response(props, config, exp, result, locations=True):
+    """Ordered data and error multiset against the model.  ``locations`` is
+    false for documents parsed without location tracking."""
     out = []
     d = first_diff(exp.data, result.data)
     if d:
@@ -134,7 +135,8 @@ def check_response(props, config, exp, result):
                     props, "error_multiset", (config, "message", "err"),
                     "path %r: message %r" % (e["path"], a["message"]),
                 ))
-            if not (e["first"] in a["locs"] and a["locs"] <= e["group"]):
+            if locations and not (e["first"] in a["locs"]
+                                  and a["locs"] <= e["group"]):
                 out.append(Violation(
                     props, "error_multiset", (config, "location", "err"),
                     "path %r: locations %r, field at %r" % (
@@ -146,7 +148,8 @@ def check_response(props, config, exp, result):
                     "path %r: extensions %r" % (e["path"], a["ext"]),
                 ))
         else:
-            if not a["locs"] or not (a["locs"] <= e["group"]):
+            if locations and (not a["locs"]
+                              or not (a["locs"] <= e["group"])):
                 out.append(Violation(
                     props, "error_multiset", (config, "location", "nonnull"),
                     "path %r: locations %r not within %r" % (
